@@ -1,7 +1,8 @@
 """C12 - streamed HTTP responses (SSE, multipart/mixed) are well-framed under any timing."""
+import json
 import os
 from collections import Counter
-from lib import vf
+from lib import vf, gensrv
 
 PING = "C2070696e67"
 
@@ -80,6 +81,146 @@ def _loop_end(m):
     return None
 
 
+WIRE_PROBE = "c12"                           # own probe (copy of execsub): queries with @defer AND subscriptions
+WIRE_CFGS = ["base", "follow_funcsyn_wl2"]   # both template flavours of the generated Exec
+
+
+def _with_cancel(sched, cancel):
+    """put the cancellation of the request context (c) where it struck: after <seen> responses had been produced"""
+    if sched is None or cancel in ("-", "") or cancel.startswith("w"):
+        return sched
+    seen = int(cancel.split(":")[2])
+    if seen < 0:
+        return sched
+    s = "" if sched == "-" else sched
+    k = 0
+    for i, ch in enumerate(s):
+        if ch == "m":
+            if k == seen:
+                return s[:i] + "c" + s[i:]
+            k += 1
+    return s + "c"
+
+
+def wire_cases(ctx, binary, cfg):
+    """exchanges to run against a server GENERATED at check time from the current templates: queries with @defer
+    over multipart/mixed (payloads held by the aggregator across flush ticks: DeliveryTimeout 1ms / 2ms / 200ms, the
+    plan's own resolver delays or none at all) and over SSE (keep-alive off / 100us / 1ms), subscriptions over SSE,
+    and the same with the request context cancelled on the server side at a logical-clock value"""
+    quick = ctx.tier == "quick"
+    picked = []
+    cdir = os.path.join(vf.VERIF, "corpus", "C12")
+    for f in sorted(os.listdir(cdir)):
+        if f.endswith(".jsonl"):
+            for l in open(os.path.join(cdir, f)):
+                if l.strip():
+                    picked.append(json.loads(l))
+    rc, so, se = vf.sh([binary, "-mode", "gen", "-n", str(160 if quick else 1500), "-seed", str(ctx.seed), "-profile", "c13"],
+                       env={"GOMEMLIMIT": "4GiB"}, timeout=1200)
+    if rc != 0:
+        raise RuntimeError("generated server %s: -mode gen failed: %s" % (cfg, se[-2000:]))
+    gen = [json.loads(l) for l in so.split("\n") if l]
+    gen = [r for r in gen if not r.get("gateErrors") and len(r.get("payloads") or []) >= 2]
+    picked += [{"id": r["id"], "query": r["query"], "variables": r.get("variables"), "plan": r["plan"]} for r in gen][:(40 if quick else 400)]
+    rc, so, se = vf.sh([binary, "-mode", "gen", "-n", str(16 if quick else 120), "-seed", str(ctx.seed), "-profile", "sub"],
+                       env={"GOMEMLIMIT": "4GiB"}, timeout=1200)
+    if rc != 0:
+        raise RuntimeError("generated server %s: -mode gen (subscriptions) failed: %s" % (cfg, se[-2000:]))
+    seen = set()
+    for l in so.split("\n"):
+        if l:
+            r = json.loads(l)
+            rid = r["id"].split("/ev")[0]
+            if rid not in seen and not r.get("gateErrors") and r.get("plan"):
+                seen.add(rid)
+                picked.append({"id": rid, "query": r["query"], "variables": r.get("variables"), "plan": r["plan"]})
+    cases = []
+    for k, r in enumerate(picked):
+        sub = r["query"].lstrip().startswith("subscription")
+        base = {"query": r["query"], "variables": r.get("variables"), "timeoutMs": 6000, "record": True}
+        fast = json.loads(json.dumps(r["plan"]))
+        fast.setdefault("rates", {})["delay"] = 0
+        variants = []
+        if not sub:
+            for plan, pname in ((r["plan"], "plan-delays"), (fast, "no-delays")):
+                for us, ms in ((0, 0), (0, 200), (2000, 0)):
+                    if (k + us + ms) % 2 == 0 or pname == "no-delays":
+                        variants.append(("multipart", pname + "/timeout=%s" % ("default-1ms" if not us + ms else "%dus" % (us + 1000 * ms)),
+                                         {"plan": plan, "deliveryTimeoutMs": ms, "deliveryTimeoutUs": us}))
+        else:
+            # a subscription over multipart/mixed: every event is held until the next flush (no hasNext: the stream
+            # is outside the shape, its CONTENT is judged - every event once, in order, every part valid JSON)
+            for us, ms in ((0, 0), (0, 200)):
+                variants.append(("multipart", "timeout=%s" % ("default-1ms" if not us + ms else "%dus" % (us + 1000 * ms)),
+                                 {"plan": fast, "deliveryTimeoutMs": ms, "deliveryTimeoutUs": us}))
+        ka = [0, 100, 1000][k % 3]
+        variants.append(("sse", "ka=%dus" % ka, {"plan": r["plan"], "keepAliveUs": ka}))
+        if k % 2 == 0 or sub:
+            # the request context ends on the server side when the logical clock (resolver entries / exits) reaches this value
+            at = 1 + (k * 7 + ctx.seed) % 9
+            variants.append(("sse", "cancel/ka=%dus" % ka, {"plan": r["plan"], "keepAliveUs": ka, "cancelAt": at}))
+            if not sub:
+                variants.append(("multipart", "cancel/timeout=default-1ms", {"plan": fast, "cancelAt": at}))
+        for tr, vname, extra in variants:
+            c = dict(base)
+            c.update(extra)
+            c["transport"] = tr
+            c["id"] = "%s/%s/%s" % (r["id"], tr, vname)
+            cases.append((c, "wire:%s:%s%s/%s" % (cfg, "subscription/" if sub else "", tr, vname.split("/timeout")[0] if tr == "multipart" else vname.split("/")[0])))
+    return cases
+
+
+def wire_rows(ctx, built):
+    """run the exchanges, hand what was recorded to the harness's oracles (-judge): rows in the harness's format"""
+    rows, info = [], {}
+    nid = 0
+    for cfg in WIRE_CFGS:
+        b = built.get(cfg)
+        if b is None or isinstance(b, Exception):
+            continue
+        cases = wire_cases(ctx, b, cfg)
+        judge = []
+        crashes = 0
+        while cases:
+            rc, so, se = vf.sh([b, "-mode", "http", "-maxhung", "3"], inp="\n".join(json.dumps(c) for c, _ in cases) + "\n", timeout=1800)
+            outs = [json.loads(l) for l in so.split("\n") if l]
+            for (c, desc), h in zip(cases, outs):
+                info[nid] = (cfg, b, c, desc)
+                if "panic" not in (h.get("produced") or []):
+                    # (a panic out of the response handler itself - what nextResponse makes of it - is the harness's dimension)
+                    judge.append(json.dumps({
+                        "id": nid, "kind": "sse" if c["transport"] == "sse" else "mp", "ka_us": c.get("keepAliveUs", 0),
+                        "timeout_us": c.get("deliveryTimeoutUs", 0) + 1000 * c.get("deliveryTimeoutMs", 0), "status": h.get("status", 0),
+                        "ctype": h.get("ctype", ""), "produced": h.get("produced") or [], "body_hex": h.get("bodyHex", ""),
+                        "hung": bool(h.get("hung")), "desc": desc, "cancel": ("w%d" % c["cancelAt"]) if c.get("cancelAt") else "-"}))
+                nid += 1
+            if rc == 0 or len(outs) >= len(cases):
+                break
+            # the process died (e.g. a panic in the aggregator's goroutine, which nothing recovers) in the case after
+            # the last answered one; go on with the rest in a new process
+            culprit = cases[len(outs)][0]
+            info[nid] = (cfg, b, culprit, "wire:%s:crash" % cfg)
+            rows.append(["crash", str(nid), vf_hex(("generated server %s died: " % cfg) + (se.strip().split("\n") or [""])[0]),
+                         vf_hex(se[:3000]), "%s %s" % ("sse" if culprit["transport"] == "sse" else "mp", culprit["id"]), "wire:%d" % nid])
+            nid += 1
+            crashes += 1
+            cases = cases[len(outs) + 1:] if crashes < 3 else []
+        if judge:
+            rcj, soj, sej = vf.sh([os.path.join(vf.CACHE, "h_c12"), "-judge"], inp="\n".join(judge) + "\n", timeout=600)
+            if rcj != 0:
+                raise RuntimeError("harness -judge failed: " + sej[-2000:])
+            for l in soj.split("\n"):
+                if l:
+                    r = l.split("\t")
+                    r.append("wire:%s" % r[1])
+                    rows.append(r)
+    return rows, info
+
+
+def vf_hex(s):
+    return s.encode("utf8", "replace").hex() or "-"
+
+
 def run(ctx):
     ctx.assumptions += [
         "sync.Mutex gives mutual exclusion and net/http's ResponseWriter.Write/Flush hand whole byte slices, in call order, to the connection: one critical section of sseConnection.write / multipartResponseAggregator.flush is modelled as one atomic step (Go's memory model is not modelled; 'no data race' is observed with -race, never proved)",
@@ -89,8 +230,24 @@ def run(ctx):
         "timer behaviour (time.Ticker, Reset) only chooses the schedule; every schedule is covered by the theorems",
         "which responses reach the writers is read off the source by go/extract/streamloop.go (the statements of the two `for { response, panicked := nextResponse(...) }` loops and the literals of nextResponse's recover branch: Gen.StreamLoop) and re-proved on every run; that a Go panic unwinds to nextResponse's deferred recover is Go semantics, exercised (operations that end by a panic, 5 kinds of panic value x 5 RecoverFuncs), not modelled",
     ]
-    ok_extract = ctx.extract("StreamFmt", "StreamLoop")
-    proved = bool(ok_extract) and ctx.prove(props=["GqlgenVerif.Props.C12"])
+    ctx.assumptions += [
+        "when sseConnection.write refuses to write and what the keep-alive / ticker goroutines do is read off the source by go/extract/streamguard.go (Gen.StreamGuard) and re-proved on every run; that cancelling a context derived from the request's does nothing to the connection is net/http behaviour, exercised (server-side cancellation before / between / after payloads and by deadline, client connected), not modelled",
+        "the multipart theorems are about payload values; the aggregator holds *graphql.Response pointers between flush ticks: that the bytes behind them do not change is proved for a buffer per response (Model/StreamAlias.lean) and the generated Exec is read for it (go/extract/execbuf.go on servers generated at check time from the current templates, both flavours); bytes.Buffer semantics (Reset keeps the array) are Go's, exercised on the wire, not modelled beyond that",
+    ]
+    ok_extract = ctx.extract("StreamFmt", "StreamLoop", "StreamGuard")
+    # servers generated NOW from the current templates (the executor behind the transports)
+    built = gensrv.build_matrix(ctx, WIRE_PROBE, WIRE_CFGS)
+    gen_ok = [c for c in WIRE_CFGS if not isinstance(built.get(c), Exception)]
+    for c in WIRE_CFGS:
+        if c not in gen_ok:
+            ctx.violation({"kind": "generated-server-does-not-build", "config": c, "detail": str(built[c])[-3000:],
+                           "shape": {"transport": "wire", "failure": "build", "config": c},
+                           "replay": "generate probe %s with configuration %s from the current templates (lib/gensrv.py)" % (WIRE_PROBE, c)}, True)
+    props = ["GqlgenVerif.Props.C12"]
+    if ok_extract and gen_ok:
+        ok_extract = ctx.extract("ExecBuf", arg=",".join(os.path.join(vf.GO, "genout", "%s_%s" % (WIRE_PROBE, c)) for c in gen_ok))
+        props.append("GqlgenVerif.Props.C12Exec")
+    proved = bool(ok_extract) and ctx.prove(props=props)
     if ok_extract and not proved:
         ctx.cov["proof_failure"] = ctx.proof_failure
     have_model = bool(ok_extract) and getattr(ctx, "driver_ok", False)
@@ -117,9 +274,19 @@ def run(ctx):
             n_race += len(got)
         else:
             n_plain += len(got)
+    n_wire = 0
+    wire_info = {}
+    if gen_ok:
+        wrows, wire_info = wire_rows(ctx, built)
+        n_wire = len(wrows)
+        rows += wrows
     kinds = Counter(r[0] for r in rows)
 
     def replay_cmd(r, race):
+        if r[-1].startswith("wire:"):
+            cfg, b, c, _ = wire_info.get(int(r[-1].split(":")[1]), ("?", "?", {}, ""))
+            return "echo '%s' | %s -mode http   # server generated from the current templates (probe %s, configuration %s); `produced` = what the executor handed to the transport, `bodyHex` = what the client received" % (
+                json.dumps(c).replace("'", "'\\''"), b, WIRE_PROBE, cfg)
         mode, seed, extra = r[-1].split(":", 2)
         return "cd /verif/go && go build %s-tags verif -o /tmp/h_c12 ./harness/c12 && /tmp/h_c12 -tier %s -seed %s %s -only %s" % (
             "-race " if mode == "race" else "", ctx.tier, seed, extra, r[1])
@@ -135,6 +302,7 @@ def run(ctx):
             disc = r[3] != "-1"
             lines.append("ssechk %s %s %s" % ("prefix" if disc else "full", r[6], r[7])); idx.append((i, "chk"))
             sched = "-" if not seen else (_sse_sched(seen) if seen[0] == "C-" else None)
+            sched = _with_cancel(sched, r[13])
             if sched is not None:
                 ka = "1" if r[2] != "0" else "0"
                 good, fin = _split_fin(r[6], r[12])
@@ -146,6 +314,9 @@ def run(ctx):
             shape = r[13] == "1"
             if shape or disc:
                 lines.append("mpchk %s %s %s %s" % ("prefix" if disc else "full", r[2], r[7], r[8])); idx.append((i, "chk"))
+            else:
+                # outside the hasNext shape delimiters cannot be judged; the content can
+                lines.append("mpcontent %s %s" % (r[7], r[8])); idx.append((i, "content"))
             batches = [] if r[10] == "-" else [int(x) for x in r[10].split(",")]
             npay = 0 if r[7] == "-" else len(r[7].split(","))
             if not disc and sum(batches) != npay:
@@ -170,13 +341,20 @@ def run(ctx):
     def viol(rep, failing):
         ctx.violation(rep, no_failing_input=not failing)
 
+    def wire_of(r):
+        """the exchange of the generated server a row came from (None for rows of the hand-built harness)"""
+        if not r[-1].startswith("wire:"):
+            return None
+        cfg, b, c, _ = wire_info.get(int(r[-1].split(":")[1]), ("?", "?", {}, ""))
+        return {"probe": WIRE_PROBE, "configuration": cfg, "binary": b, "case": c}
+
     for i, r in enumerate(rows):
         race = r[-1].startswith("race:")
         kind = r[0]
         if kind in ("race", "crash", "timeout"):
             races += 1
             digest = bytes.fromhex(r[2]).decode("utf8", "replace") if r[2] != "-" else ""
-            viol({"kind": kind, "case": r[4] if len(r) > 4 else "?", "report": digest,
+            viol({"kind": kind, "case": r[4] if len(r) > 4 else "?", "report": digest, "generated_server": wire_of(r),
                   "stderr": bytes.fromhex(r[3]).decode("utf8", "replace")[:3000] if r[3] != "-" else "",
                   "shape": {"transport": (r[4].split(" ")[0] if len(r) > 4 else "?"), "failure": kind},
                   "replay": "%s   # case: %s -> %s" % (replay_cmd(r, race), r[4] if len(r) > 4 else "?", digest)}, True)
@@ -204,7 +382,10 @@ def run(ctx):
                 branch["sse:race-build"] += 1
             if fin != "-":
                 branch["sse:ends-by-panic after %s good" % _nclass(len(payloads.split(",")) - 1)] += 1
-            if npings_between or disc != "-1" or desc == "operr" or fin != "-":
+            cancel = r[13]
+            if cancel != "-":
+                branch["sse:request context cancelled on the server side, client connected" + (" (generated server)" if cancel.startswith("w") else "")] += 1
+            if npings_between or disc != "-1" or desc == "operr" or fin != "-" or cancel != "-" or desc.startswith("wire:"):
                 nontriv.add(("sse", r[1], r[-1]))
             chk = m.get("chk")
             leanv, leanitems = (chk.split(" ", 1) + ["-"])[:2] if chk else (None, None)
@@ -234,7 +415,9 @@ def run(ctx):
                 failure = gov if gov != "ok" else (leanv if leanv not in (None, "ok") else hstate)
                 viol({"kind": "spec" if spec_fail else "correspondence", "why": why, "go_oracle": gov, "lean_spec": leanv, "handler": hstate,
                       "input": {"transport": "sse", "keepalive_us": ka, "payloads_hex": payloads, "disconnect_after": disc, "case": desc,
-                                "ends_by_panic_error_response_hex": fin},
+                                "ends_by_panic_error_response_hex": fin,
+                                "request_context_cancelled_server_side": cancel},
+                      "generated_server": wire_of(r),
                       "impl_bytes_hex": raw[:6000], "impl_items": items[:3000], "model": (m.get("m1") or "")[:3000],
                       "shape": {"transport": "sse", "failure": failure if spec_fail else "correspondence"},
                       "replay": replay_cmd(r, race) + "   # SSE keepalive=%sus, %d payloads%s: %s" % (ka, 0 if payloads == "-" else len(payloads.split(",")), _fin_note(fin), failure if spec_fail else "; ".join(why))},
@@ -251,12 +434,20 @@ def run(ctx):
                 branch["mp:race-build"] += 1
             if fin != "-":
                 branch["mp:ends-by-panic after %s good" % _nclass(len(payloads.split(",")) - 1)] += 1
-            if len(bl) >= 2 or disc != "-1" or shape != "1" or fin != "-":
+            cancel = r[16]
+            if cancel != "-":
+                branch["mp:request context cancelled on the server side, client connected" + (" (generated server)" if cancel.startswith("w") else "")] += 1
+            if desc.startswith("wire:") and max(bl[1:] or [0]) >= 2:
+                branch["mp:generated server, >= 2 payloads held across one flush"] += 1
+            if len(bl) >= 2 or disc != "-1" or shape != "1" or fin != "-" or cancel != "-":
                 nontriv.add(("mp", r[1], r[-1]))
             chk = m.get("chk")
             leanv, leanitems = (chk.split(" ", 1) + ["-"])[:2] if chk else (None, None)
             judged = shape == "1"
             spec_fail = hstate != "ok" or (judged and (gov != "ok" or (leanv is not None and leanv != "ok")))
+            content = m.get("content")
+            if content is not None and content != "ok":
+                spec_fail, leanv = True, content
             corr_fail = False
             why = []
             if judged and leanitems is not None and disc == "-1" and leanitems != items:
@@ -279,10 +470,12 @@ def run(ctx):
                         corr_fail = True; why.append("parts read before the disconnect are not a prefix of the model's stream")
             if spec_fail or corr_fail:
                 div += 1
-                failure = hstate if hstate != "ok" else gov if gov != "ok" else leanv
+                failure = hstate if hstate != "ok" else gov if (gov != "ok" and judged) else leanv
                 viol({"kind": "spec" if spec_fail else "correspondence", "why": why, "go_oracle": gov, "lean_spec": leanv, "handler": hstate,
                       "input": {"transport": "multipart/mixed", "boundary_hex": bnd, "delivery_timeout_us": tmo, "payloads_hex_hasNext": payloads, "disconnect_after": disc, "case": desc,
-                                "ends_by_panic_error_response_hex": fin},
+                                "ends_by_panic_error_response_hex": fin,
+                                "request_context_cancelled_server_side": cancel},
+                      "generated_server": wire_of(r),
                       "impl_bytes_hex": raw[:6000], "impl_items": items[:3000], "batches": batches,
                       "shape": {"transport": "mp", "failure": failure if spec_fail else "correspondence"},
                       "replay": replay_cmd(r, race) + "   # multipart/mixed boundary=%r, %d payloads%s: %s" % (bytes.fromhex("" if bnd == "-" else bnd).decode("latin1"), 0 if payloads == "-" else len(payloads.split(",")), _fin_note(fin), failure if spec_fail else "; ".join(why))},
@@ -293,16 +486,17 @@ def run(ctx):
     if ok_extract and not proved and not any(not nf for _, nf in ctx.violations):
         # a theorem over the regenerated facts no longer checks and no failing input was found above
         ctx.violation({"kind": "proof", "failing": ctx.proof_failure,
-                       "replay": "cd /verif/lean && lake build GqlgenVerif.Props.C12   # theorems over Gen/StreamFmt.lean, Gen/StreamLoop.lean regenerated from /repo"},
+                       "replay": "cd /verif/lean && lake build %s   # theorems over Gen/StreamFmt.lean, Gen/StreamLoop.lean, Gen/StreamGuard.lean regenerated from /repo and Gen/ExecBuf.lean regenerated from servers generated from the current templates" % " ".join(props)},
                       no_failing_input=True)
 
     ctx.cov.update({
         "evaluations": len(rows),
         "distinct_nontrivial": len(nontriv),
-        "rule": "one evaluation = one real HTTP exchange with the transport behind httptest.Server (hand-built ExecutableSchema, 0-50 payloads with adversarial strings, inter-payload delays 0-2.7ms, keep-alive 1us-5ms / flush tick 1ms-3ms, 10 boundaries, client disconnect points; an operation ends by nil or by a panic raised while the next response is being built - after 0, 1 or many good payloads, 5 kinds of panic value x 5 RecoverFuncs - whose error response must be delivered as the last payload), bytes parsed by bufio/mime-multipart parsers, by the Lean parsers, and compared byte-exactly with the Lean model (response loop regenerated from source + writer model) run on the operation and the observed schedule. Non-trivial = SSE case with a ping between two events, an operation-error stream, a disconnect or a panic; multipart case with >= 2 parts, a disconnect, a panic, or a hasNext sequence outside the shape",
+        "rule": "one evaluation = one real HTTP exchange with the transport behind httptest.Server (hand-built ExecutableSchema, 0-50 payloads with adversarial strings, inter-payload delays 0-2.7ms, keep-alive 1us-5ms / flush tick 1ms-3ms, 10 boundaries, client disconnect points; an operation ends by nil or by a panic raised while the next response is being built - after 0, 1 or many good payloads, 5 kinds of panic value x 5 RecoverFuncs - whose error response must be delivered as the last payload), the request context cancelled ON THE SERVER SIDE while the client keeps reading - just before response k is built, k = 0..n, or by a deadline of 1us-3ms - with an operation that goes on / ends / says a last word; the same exchange against a server GENERATED at check time from the current templates (probe c12: generated @defer queries, directed corpus/C12/*.jsonl, generated subscriptions; multipart/mixed with DeliveryTimeout 1ms / 2ms / 200ms with and without resolver delays so that payloads are held across flush ticks, SSE with keep-alive off / 100us / 1ms, subscriptions over both, server-side cancellation at a logical-clock value; both template flavours), where the payloads that must arrive are json.Marshal of every response taken when the executor returned it), bytes parsed by bufio/mime-multipart parsers, by the Lean parsers, and compared byte-exactly with the Lean model (response loop regenerated from source + writer model) run on the operation and the observed schedule. Non-trivial = SSE case with a ping between two events, an operation-error stream, a disconnect, a panic, a server-side cancellation or a generated server; multipart case with >= 2 parts, a disconnect, a panic, a server-side cancellation, or a hasNext sequence outside the shape (judged on content: mpContentSpec)",
         "input_distribution": dict(branch),
         "kinds": dict(kinds),
         "plain_build_cases": n_plain,
+        "generated_server_exchanges": n_wire,
         "race_build_cases": n_race,
         "race_or_crash_reports": races,
         "correspondence_or_spec_failures": div,
